@@ -48,6 +48,7 @@ func main() {
 		{"TmsData.v", genTmsData},
 		{"CliGen.v", genCli},
 		{"RingHelpersGen.v", genRingHelpers},
+		{"QuadTreeGen.v", genQuadTree},
 	}
 	failed := false
 	for _, g := range gens {
